@@ -28,6 +28,25 @@
 //!                        ancestor-or-self according to the real `is_derived_from`, or does not declare the member in
 //!                        the request's table, or — for variants — the real enum does not list the variant)
 //!     commonbase         - | (cb) | (cb unsound)            (`Err` → `-`) sound = both classes derive from the result (real code)
+//!
+//! MEMBER TYPES.  A property is `"p"` (type `int`) or `("p" "Type")`, a method `("m" pub NARGS)` (`void m(int, …)`) or
+//! `("m" pub (args "T1" …) (ret "R"))`.  Type names are what a metatypes.json carries: `int`, `QString`, `C0*`, `QList<int>`,
+//! `QStringList`, a nested enum `E`, a scoped name `C0::E`, … and names that do not resolve (`Nope`, `QList<Nope>`, `QMap<int,int>`,
+//! `C0::Nope`, an enum that only a DERIVED class declares, …).  A declaration whose types do not resolve in the scope of the
+//! declaring class is `(err tr "Nope")` / `(err ud "QMap<int,int>")` (ud = TypeMapError::UnsupportedDecoration) — also when an
+//! ancestor declares the same name resolvably.
+//!
+//! Request (kind=pred, judged by QV.Spec.GraphMembers): `(spec-cg (classes …) (others …) (queries …) (judge))`; the answer is the
+//! EXACT answer vector (as for `cg`); check appends `(impl (ans …))` and the Lean specification says `(ok n)` or
+//! `(fail (query i "why" …))`: every member answer must be that of an UNHIDDEN declaration of the name (the class's own one
+//! first; on a chain the nearest), found iff that declaration's types resolve, an error iff they do not.
+//!
+//! Requests (kind=oracle, the whole pipeline): `(c17-doc (classes …) (use KIND "Inst" "As" "member"))` — the classes (same
+//! syntax; supers may name Qt classes) are loaded NEXT TO the Qt metatypes, a document is written that instantiates `Inst` and
+//! uses the member through `As` (`Inst` itself or an ancestor: `(x as As).m()`), KIND = prop-bind | prop-read | method-call |
+//! signal-cb, translated in-process (generate mode); `(c17-cli …same…)` runs the real `qmluic generate-ui` binary with the classes
+//! in a `--foreign-types` file.  Expected, computed here from the class list by the same rule (unhidden declaration decides):
+//! accepted, "… resolution failed", or "unknown property / not found".  Answers `(ok …)` / `(violation …)`.
 use crate::rng::Rng;
 use crate::sexp::{atom, list, node, st, Sexp};
 use crate::{Case, Stream};
@@ -35,12 +54,32 @@ use qmluic::metatype;
 use qmluic::typemap::{
     Class, MethodKind, ModuleData, ModuleId, NamedType, Namespace, TypeMap, TypeMapError, TypeSpace as _,
 };
+use std::sync::OnceLock;
 
-pub struct C17;
+mod pipeline;
+use pipeline::{status_vectors, St};
+
+pub struct C17 {
+    /// the Qt metatypes of /repo, parsed once (whole-pipeline cases only)
+    qt: OnceLock<Vec<metatype::Class>>,
+}
 
 impl C17 {
     pub fn new() -> Self {
-        C17
+        C17 { qt: OnceLock::new() }
+    }
+}
+
+#[derive(Clone, Debug)]
+struct PropSpec {
+    name: String,
+    /// `None`: the old untyped form, type `int`
+    ty: Option<String>,
+}
+
+impl PropSpec {
+    fn type_name(&self) -> &str {
+        self.ty.as_deref().unwrap_or("int")
     }
 }
 
@@ -49,6 +88,20 @@ struct MethodSpec {
     name: String,
     access: &'static str,
     nargs: usize,
+    /// `None`: the old untyped form `void name(int × nargs)`; else (argument type names, return type name)
+    types: Option<(Vec<String>, String)>,
+}
+
+impl MethodSpec {
+    fn arg_types(&self) -> Vec<String> {
+        match &self.types {
+            Some((a, _)) => a.clone(),
+            None => vec!["int".to_owned(); self.nargs],
+        }
+    }
+    fn ret_type(&self) -> &str {
+        self.types.as_ref().map(|t| t.1.as_str()).unwrap_or("void")
+    }
 }
 
 #[derive(Clone, Debug)]
@@ -62,7 +115,7 @@ struct EnumSpec {
 struct ClassSpec {
     name: String,
     supers: Vec<(String, &'static str)>,
-    props: Vec<String>,
+    props: Vec<PropSpec>,
     signals: Vec<MethodSpec>,
     slots: Vec<MethodSpec>,
     methods: Vec<MethodSpec>,
@@ -101,40 +154,166 @@ fn strs(v: &[String]) -> Vec<Sexp> {
 }
 
 fn methods_sexp(tag: &str, ms: &[MethodSpec]) -> Sexp {
-    node(tag, ms.iter().map(|m| list(vec![st(m.name.clone()), atom(m.access), atom(m.nargs.to_string())])).collect())
+    node(
+        tag,
+        ms.iter()
+            .map(|m| match &m.types {
+                None => list(vec![st(m.name.clone()), atom(m.access), atom(m.nargs.to_string())]),
+                Some((args, ret)) => list(vec![st(m.name.clone()), atom(m.access), node("args", strs(args)), node("ret", vec![st(ret.clone())])]),
+            })
+            .collect(),
+    )
+}
+
+fn class_sexp(c: &ClassSpec) -> Sexp {
+    node(
+        "class",
+        vec![
+            st(c.name.clone()),
+            node("supers", c.supers.iter().map(|(n, a)| list(vec![st(n.clone()), atom(*a)])).collect()),
+            node(
+                "props",
+                c.props
+                    .iter()
+                    .map(|p| match &p.ty {
+                        None => st(p.name.clone()),
+                        Some(t) => list(vec![st(p.name.clone()), st(t.clone())]),
+                    })
+                    .collect(),
+            ),
+            methods_sexp("signals", &c.signals),
+            methods_sexp("slots", &c.slots),
+            methods_sexp("methods", &c.methods),
+            node(
+                "enums",
+                c.enums
+                    .iter()
+                    .map(|e| {
+                        let mut v = vec![st(e.name.clone()), atom(if e.scoped { "scoped" } else { "unscoped" })];
+                        v.extend(strs(&e.variants));
+                        list(v)
+                    })
+                    .collect(),
+            ),
+        ],
+    )
+}
+
+fn parse_class(c: &Sexp) -> Option<ClassSpec> {
+    let (t, a) = c.as_node()?;
+    if t != "class" || a.len() != 7 {
+        return None;
+    }
+    let sect = |s: &Sexp, tag: &str| -> Option<Vec<Sexp>> {
+        let (t, v) = s.as_node()?;
+        (t == tag).then(|| v.to_vec())
+    };
+    let meths = |s: &Sexp, tag: &str| -> Option<Vec<MethodSpec>> {
+        sect(s, tag)?
+            .iter()
+            .map(|m| {
+                let l = m.as_list()?;
+                let name = l.first()?.as_str()?.to_owned();
+                let access = access_atom(l.get(1)?.as_atom()?)?;
+                if let Some(n) = l.get(2)?.as_usize() {
+                    return (l.len() == 3).then(|| MethodSpec { name, access, nargs: n, types: None });
+                }
+                let (t, args) = l.get(2)?.as_node()?;
+                let (t2, ret) = l.get(3)?.as_node()?;
+                if t != "args" || t2 != "ret" || ret.len() != 1 || l.len() != 4 {
+                    return None;
+                }
+                let args = args.iter().map(|x| x.as_str().map(str::to_owned)).collect::<Option<Vec<_>>>()?;
+                Some(MethodSpec { name, access, nargs: args.len(), types: Some((args, ret[0].as_str()?.to_owned())) })
+            })
+            .collect()
+    };
+    let mut cls = ClassSpec { name: a[0].as_str()?.to_owned(), ..Default::default() };
+    for s in sect(&a[1], "supers")? {
+        let l = s.as_list()?;
+        cls.supers.push((l.first()?.as_str()?.to_owned(), access_atom(l.get(1)?.as_atom()?)?));
+    }
+    for p in sect(&a[2], "props")? {
+        cls.props.push(match p.as_str() {
+            Some(n) => PropSpec { name: n.to_owned(), ty: None },
+            None => {
+                let l = p.as_list()?;
+                if l.len() != 2 {
+                    return None;
+                }
+                PropSpec { name: l[0].as_str()?.to_owned(), ty: Some(l[1].as_str()?.to_owned()) }
+            }
+        });
+    }
+    cls.signals = meths(&a[3], "signals")?;
+    cls.slots = meths(&a[4], "slots")?;
+    cls.methods = meths(&a[5], "methods")?;
+    for e in sect(&a[6], "enums")? {
+        let l = e.as_list()?;
+        let scoped = match l.get(1)?.as_atom()? {
+            "scoped" => true,
+            "unscoped" => false,
+            _ => return None,
+        };
+        let variants = l[2..].iter().map(|v| v.as_str().map(str::to_owned)).collect::<Option<Vec<_>>>()?;
+        cls.enums.push(EnumSpec { name: l.first()?.as_str()?.to_owned(), scoped, variants });
+    }
+    Some(cls)
+}
+
+fn meta_methods(ms: &[MethodSpec]) -> Vec<metatype::Method> {
+    ms.iter()
+        .map(|m| {
+            let mut x = metatype::Method::with_argument_types(m.name.clone(), m.ret_type(), m.arg_types());
+            x.access = access_meta(m.access);
+            x
+        })
+        .collect()
+}
+
+fn meta_class(c: &ClassSpec) -> metatype::Class {
+    metatype::Class {
+        class_name: c.name.clone(),
+        qualified_class_name: c.name.clone(),
+        object: true,
+        super_classes: c
+            .supers
+            .iter()
+            .map(|(n, a)| metatype::SuperClassSpecifier { name: n.clone(), access: access_meta(a) })
+            .collect(),
+        properties: c
+            .props
+            .iter()
+            .map(|p| {
+                let mut x = metatype::Property::new(p.name.clone(), p.type_name());
+                // readable and writable (the whole-pipeline documents bind and read them)
+                x.read = Some(p.name.clone());
+                let mut setter = String::from("set");
+                setter.extend(p.name.chars().take(1).flat_map(|c| c.to_uppercase()));
+                setter.extend(p.name.chars().skip(1));
+                x.write = Some(setter);
+                x
+            })
+            .collect(),
+        signals: meta_methods(&c.signals),
+        slots: meta_methods(&c.slots),
+        methods: meta_methods(&c.methods),
+        enums: c
+            .enums
+            .iter()
+            .map(|e| {
+                let mut m = metatype::Enum::with_values(e.name.clone(), e.variants.clone());
+                m.is_class = e.scoped;
+                m
+            })
+            .collect(),
+        ..Default::default()
+    }
 }
 
 impl TableSpec {
     fn to_sexp(&self) -> (Sexp, Sexp) {
-        let classes = self
-            .classes
-            .iter()
-            .map(|c| {
-                node(
-                    "class",
-                    vec![
-                        st(c.name.clone()),
-                        node("supers", c.supers.iter().map(|(n, a)| list(vec![st(n.clone()), atom(*a)])).collect()),
-                        node("props", strs(&c.props)),
-                        methods_sexp("signals", &c.signals),
-                        methods_sexp("slots", &c.slots),
-                        methods_sexp("methods", &c.methods),
-                        node(
-                            "enums",
-                            c.enums
-                                .iter()
-                                .map(|e| {
-                                    let mut v = vec![st(e.name.clone()), atom(if e.scoped { "scoped" } else { "unscoped" })];
-                                    v.extend(strs(&e.variants));
-                                    list(v)
-                                })
-                                .collect(),
-                        ),
-                    ],
-                )
-            })
-            .collect();
-        (node("classes", classes), node("others", strs(&self.others)))
+        (node("classes", self.classes.iter().map(class_sexp).collect()), node("others", strs(&self.others)))
     }
 
     fn parse(classes: &Sexp, others: &Sexp) -> Option<TableSpec> {
@@ -144,49 +323,7 @@ impl TableSpec {
         }
         let mut out = TableSpec::default();
         for c in cs {
-            let (t, a) = c.as_node()?;
-            if t != "class" || a.len() != 7 {
-                return None;
-            }
-            let sect = |s: &Sexp, tag: &str| -> Option<Vec<Sexp>> {
-                let (t, v) = s.as_node()?;
-                (t == tag).then(|| v.to_vec())
-            };
-            let meths = |s: &Sexp, tag: &str| -> Option<Vec<MethodSpec>> {
-                sect(s, tag)?
-                    .iter()
-                    .map(|m| {
-                        let l = m.as_list()?;
-                        Some(MethodSpec {
-                            name: l.first()?.as_str()?.to_owned(),
-                            access: access_atom(l.get(1)?.as_atom()?)?,
-                            nargs: l.get(2)?.as_usize()?,
-                        })
-                    })
-                    .collect()
-            };
-            let mut cls = ClassSpec { name: a[0].as_str()?.to_owned(), ..Default::default() };
-            for s in sect(&a[1], "supers")? {
-                let l = s.as_list()?;
-                cls.supers.push((l.first()?.as_str()?.to_owned(), access_atom(l.get(1)?.as_atom()?)?));
-            }
-            for p in sect(&a[2], "props")? {
-                cls.props.push(p.as_str()?.to_owned());
-            }
-            cls.signals = meths(&a[3], "signals")?;
-            cls.slots = meths(&a[4], "slots")?;
-            cls.methods = meths(&a[5], "methods")?;
-            for e in sect(&a[6], "enums")? {
-                let l = e.as_list()?;
-                let scoped = match l.get(1)?.as_atom()? {
-                    "scoped" => true,
-                    "unscoped" => false,
-                    _ => return None,
-                };
-                let variants = l[2..].iter().map(|v| v.as_str().map(str::to_owned)).collect::<Option<Vec<_>>>()?;
-                cls.enums.push(EnumSpec { name: l.first()?.as_str()?.to_owned(), scoped, variants });
-            }
-            out.classes.push(cls);
+            out.classes.push(parse_class(c)?);
         }
         let (t, os) = others.as_node()?;
         if t != "others" {
@@ -230,39 +367,7 @@ impl TableSpec {
     fn build_type_map(&self) -> TypeMap {
         let mut type_map = TypeMap::with_primitive_types();
         let mut md = ModuleData::with_builtins();
-        let mk_methods = |ms: &[MethodSpec]| -> Vec<metatype::Method> {
-            ms.iter()
-                .map(|m| {
-                    let mut x = metatype::Method::with_argument_types(m.name.clone(), "void", vec!["int"; m.nargs]);
-                    x.access = access_meta(m.access);
-                    x
-                })
-                .collect()
-        };
-        md.extend(self.classes.iter().map(|c| metatype::Class {
-            class_name: c.name.clone(),
-            qualified_class_name: c.name.clone(),
-            object: true,
-            super_classes: c
-                .supers
-                .iter()
-                .map(|(n, a)| metatype::SuperClassSpecifier { name: n.clone(), access: access_meta(a) })
-                .collect(),
-            properties: c.props.iter().map(|p| metatype::Property::new(p.clone(), "int")).collect(),
-            signals: mk_methods(&c.signals),
-            slots: mk_methods(&c.slots),
-            methods: mk_methods(&c.methods),
-            enums: c
-                .enums
-                .iter()
-                .map(|e| {
-                    let mut m = metatype::Enum::with_values(e.name.clone(), e.variants.clone());
-                    m.is_class = e.scoped;
-                    m
-                })
-                .collect(),
-            ..Default::default()
-        }));
+        md.extend(self.classes.iter().map(meta_class));
         md.extend(
             self.others
                 .iter()
@@ -344,6 +449,7 @@ fn err_sexp(e: &TypeMapError) -> Sexp {
     match e {
         TypeMapError::InvalidTypeRef(n) => node("err", vec![atom("tr"), st(n.clone())]),
         TypeMapError::InvalidSuperClassType(n) => node("err", vec![atom("sc"), st(n.clone())]),
+        TypeMapError::UnsupportedDecoration(n) => node("err", vec![atom("ud"), st(n.clone())]),
         other => node("err", vec![atom("other"), st(other.to_string())]),
     }
 }
@@ -433,7 +539,7 @@ fn run_query<'a>(tbl: &TableSpec, module: &Namespace<'a>, q: &Query, spec: bool)
             Some(Ok(p)) => {
                 let o = p.object_class();
                 if spec {
-                    let declared = tbl.effective(o.name()).map(|d| d.props.contains(n)).unwrap_or(false) && p.name() == n;
+                    let declared = tbl.effective(o.name()).map(|d| d.props.iter().any(|x| &x.name == n)).unwrap_or(false) && p.name() == n;
                     coarse(&cls, o, declared)
                 } else {
                     node("ok", vec![st(o.name().to_owned())])
@@ -511,15 +617,50 @@ struct Shape {
     nonclass: bool,
     dups: bool,
     dense: bool,
+    /// member types from `type_pool` (resolvable and unresolvable) instead of `int`/`void`
+    typed: bool,
 }
 
-fn gen_methods(rng: &mut Rng, max: usize) -> Vec<MethodSpec> {
+/// Type names a generated member may carry in a table with `n` classes `C0..`: builtins, decorations, classes and pointers
+/// to them, nested and module-level enums (visible or not — that depends on the class that declares the member), scoped names,
+/// and names that resolve nowhere.  Roughly a third never resolves.
+fn random_type(rng: &mut Rng, n: usize) -> String {
+    let c = |rng: &mut Rng| format!("C{}", rng.below(n.max(1) + 1)); // one index past the last class: unknown
+    match rng.below(30) {
+        0..=5 => (*rng.pick(&["int", "QString", "bool", "double", "qreal", "QVariant", "uint", "void"])).to_owned(),
+        6 => (*rng.pick(&["QStringList", "QList<int>", "QVector<QString>", "QList<QList<int>>"])).to_owned(),
+        7..=8 => format!("{}*", c(rng)),
+        9 => c(rng),
+        10 => format!("QList<{}*>", c(rng)),
+        11..=14 => (*rng.pick(&["E", "F", "G"])).to_owned(),
+        15 => (*rng.pick(&["E0", "Flags"])).to_owned(),
+        16..=18 => format!("{}::{}", c(rng), rng.pick(&["E", "F", "G", "V0", "Nope"])),
+        19 => format!("QList<{}::E>", c(rng)),
+        20..=22 => (*rng.pick(&["Nope", "Nope*", "QList<Nope>", "QVector<Nope*>", "Nope::E"])).to_owned(),
+        23..=24 => (*rng.pick(&["QMap<int,int>", "QHash<QString,int>", "QSet<int>", "std::vector<int>"])).to_owned(),
+        25 => (*rng.pick(&["E::V0", "int::x", "E0::OtherValue", "QString::E"])).to_owned(),
+        26 => (*rng.pick(&["QList<int>*", "int*", "QString*", "E*"])).to_owned(),
+        27 => (*rng.pick(&["V0", "p0", "m0", "OtherValue"])).to_owned(),
+        _ => (*rng.pick(&["int", "int", "QString"])).to_owned(),
+    }
+}
+
+fn gen_methods(rng: &mut Rng, max: usize, typed: Option<usize>) -> Vec<MethodSpec> {
     let n = rng.below(max + 1);
     (0..n)
-        .map(|_| MethodSpec {
-            name: rng.pick(&["m0", "m1", "m2", "a", "zz9"]).to_string(),
-            access: *rng.pick(&["pub", "pub", "pub", "pub", "prot", "priv"]),
-            nargs: rng.below(3),
+        .map(|_| {
+            let nargs = rng.below(3);
+            MethodSpec {
+                name: rng.pick(&["m0", "m1", "m2", "a", "zz9"]).to_string(),
+                access: *rng.pick(&["pub", "pub", "pub", "pub", "prot", "priv"]),
+                nargs,
+                types: typed.map(|nc| {
+                    // mostly plain signatures, so that whole overload sets resolve often enough
+                    let ty = |rng: &mut Rng| if rng.chance(1, 2) { "int".to_owned() } else { random_type(rng, nc) };
+                    let args = (0..nargs).map(|_| ty(rng)).collect();
+                    (args, if rng.chance(2, 3) { "void".to_owned() } else { ty(rng) })
+                }),
+            }
         })
         .collect()
 }
@@ -565,12 +706,15 @@ fn gen_table(rng: &mut Rng, sh: &Shape) -> TableSpec {
         }
         let np = rng.below(3);
         for _ in 0..np {
-            c.props.push(rng.pick(&["p0", "p1", "p2", "p3"]).to_string());
+            let name = rng.pick(&["p0", "p1", "p2", "p3"]).to_string();
+            let ty = sh.typed.then(|| random_type(rng, sh.n));
+            c.props.push(PropSpec { name, ty });
         }
         if rng.chance(1, 2) {
-            c.signals = gen_methods(rng, 2);
-            c.slots = gen_methods(rng, 2);
-            c.methods = gen_methods(rng, 3);
+            let typed = sh.typed.then_some(sh.n);
+            c.signals = gen_methods(rng, 2, typed);
+            c.slots = gen_methods(rng, 2, typed);
+            c.methods = gen_methods(rng, 3, typed);
         }
         if rng.chance(1, 2) {
             let ne = 1 + rng.below(2);
@@ -586,6 +730,256 @@ fn gen_table(rng: &mut Rng, sh: &Shape) -> TableSpec {
         t.classes.push(c);
     }
     t
+}
+
+// ---------------------------------------------------------------------------------------------- member scenarios
+
+/// graphs on which the SAME member names are declared at several levels: (label, per class `Ci` its supers)
+fn member_shapes(thorough: bool) -> Vec<(&'static str, Vec<Vec<(&'static str, &'static str)>>)> {
+    let p = |n: &'static str| (n, "pub");
+    let mut v = vec![
+        ("chain1", vec![vec![]]),
+        ("chain2", vec![vec![], vec![p("C0")]]),
+        ("chain3", vec![vec![], vec![p("C0")], vec![p("C1")]]),
+        ("chain4", vec![vec![], vec![p("C0")], vec![p("C1")], vec![p("C2")]]),
+        ("diamond", vec![vec![], vec![p("C0")], vec![p("C0")], vec![p("C1"), p("C2")]]),
+        ("two-bases", vec![vec![], vec![], vec![p("C0"), p("C1")]]),
+        // a base that is also listed directly, after resp. before the class that derives from it
+        ("skew-late", vec![vec![], vec![p("C0")], vec![p("C1"), p("C0")]]),
+        ("skew-early", vec![vec![], vec![p("C0")], vec![p("C0"), p("C1")]]),
+        // an unresolved / a non-class super listed first (F10: skipped, reported only if nothing is found)
+        ("dangling", vec![vec![], vec![p("Nope"), p("C0")], vec![p("E0"), p("C1")]]),
+        ("cycle", vec![vec![p("C1")], vec![p("C0")], vec![p("C1")]]),
+        ("private-base", vec![vec![], vec![("C0", "priv")], vec![p("C1")]]),
+    ];
+    if thorough {
+        v.push(("chain5", vec![vec![], vec![p("C0")], vec![p("C1")], vec![p("C2")], vec![p("C3")]]));
+        v.push(("diamond-tail", vec![vec![], vec![p("C0")], vec![p("C0")], vec![p("C1"), p("C2")], vec![p("C3")]]));
+    }
+    v
+}
+
+fn rot(s: St) -> St {
+    match s {
+        St::R => St::U,
+        St::U => St::A,
+        St::A => St::R,
+    }
+}
+
+/// enum names the class `i` sees as nested types: its own and those of its public ancestors (plain graph search)
+fn visible_enums(classes: &[ClassSpec], i: usize) -> Vec<String> {
+    let mut seen = vec![];
+    let mut stack = vec![classes[i].name.clone()];
+    let mut out = vec![];
+    while let Some(n) = stack.pop() {
+        if seen.contains(&n) {
+            continue;
+        }
+        seen.push(n.clone());
+        if let Some(c) = classes.iter().rev().find(|c| c.name == n) {
+            out.extend(c.enums.iter().map(|e| e.name.clone()));
+            stack.extend(c.supers.iter().filter(|(_, a)| *a == "pub").map(|(s, _)| s.clone()));
+        }
+    }
+    out
+}
+
+/// a type name that resolves in the scope of class `i`
+fn resolvable_type(rng: &mut Rng, classes: &[ClassSpec], i: usize) -> String {
+    let n = classes.len();
+    let vis = visible_enums(classes, i);
+    loop {
+        let t = match rng.below(12) {
+            0..=3 => (*rng.pick(&["int", "QString", "bool", "double", "qreal", "QVariant", "uint", "void"])).to_owned(),
+            4 => (*rng.pick(&["QStringList", "QList<int>", "QVector<QString>", "QList<QList<bool>>"])).to_owned(),
+            5 => format!("C{}*", rng.below(n)),
+            6 => format!("C{}", rng.below(n)),
+            7 => format!("QList<C{}*>", rng.below(n)),
+            8 => "E0".to_owned(),
+            9..=10 if !vis.is_empty() => rng.pick(&vis).clone(),
+            11 => {
+                // `Cj::E` where Cj sees E
+                let j = rng.below(n);
+                let vj = visible_enums(classes, j);
+                if vj.is_empty() {
+                    continue;
+                }
+                format!("C{j}::{}", rng.pick(&vj))
+            }
+            _ => continue,
+        };
+        return t;
+    }
+}
+
+/// a type name that does NOT resolve in the scope of class `i`
+fn unresolvable_type(rng: &mut Rng, classes: &[ClassSpec], i: usize) -> String {
+    let n = classes.len();
+    let vis = visible_enums(classes, i);
+    loop {
+        let t = match rng.below(12) {
+            0..=2 => (*rng.pick(&["Nope", "Nope*", "QList<Nope>", "QVector<Nope*>", "Nope::E"])).to_owned(),
+            3 => (*rng.pick(&["QMap<int,int>", "QHash<QString,int>", "QSet<int>", "QList<QMap<int,int>>"])).to_owned(),
+            4 => format!("C{}::Nope", rng.below(n)),
+            5 => format!("C{}::V0", rng.below(n)), // an enumerator is not a type
+            6 => format!("C{}*", n + rng.below(2)), // no such class
+            7 => (*rng.pick(&["E0::OtherValue", "int::x", "QString::E", "QList<int>*"])).to_owned(),
+            // an enum that exists in the table but is not visible from THIS class (declared by a derived or unrelated class)
+            _ => {
+                let hidden: Vec<&str> = ["E", "F", "G"].into_iter().filter(|e| !vis.iter().any(|v| v == e)).collect();
+                if hidden.is_empty() {
+                    continue;
+                }
+                let e = *rng.pick(&hidden);
+                if rng.chance(1, 2) { e.to_owned() } else { format!("QList<{e}>") }
+            }
+        };
+        return t;
+    }
+}
+
+fn typed_methods(rng: &mut Rng, classes: &[ClassSpec], i: usize, name: &str, st: St, signals_only: bool) -> Vec<(usize, MethodSpec)> {
+    // (section: 0 signals, 1 slots, 2 methods; method)
+    let section = |rng: &mut Rng| if signals_only { 0 } else { rng.below(3) };
+    match st {
+        St::A => {
+            // absent — or present but not public, which is the same to the type map
+            if rng.chance(1, 3) {
+                let acc = *rng.pick(&["prot", "priv"]);
+                vec![(section(rng), MethodSpec { name: name.to_owned(), access: acc, nargs: 0, types: Some((vec![], "void".into())) })]
+            } else {
+                vec![]
+            }
+        }
+        St::R | St::U => {
+            let k = 1 + rng.below(3);
+            let mut out: Vec<(usize, MethodSpec)> = (0..k)
+                .map(|_| {
+                    let nargs = rng.below(3);
+                    let args = (0..nargs).map(|_| resolvable_type(rng, classes, i)).collect();
+                    let ret = if rng.chance(1, 2) { "void".to_owned() } else { resolvable_type(rng, classes, i) };
+                    (section(rng), MethodSpec { name: name.to_owned(), access: "pub", nargs, types: Some((args, ret)) })
+                })
+                .collect();
+            if st == St::U {
+                // one type of one overload does not resolve: the whole name fails
+                let o = rng.below(k);
+                let bad = unresolvable_type(rng, classes, i);
+                let (args, ret) = out[o].1.types.as_mut().unwrap();
+                if !args.is_empty() && rng.chance(2, 3) {
+                    let a = rng.below(args.len());
+                    args[a] = bad;
+                } else {
+                    *ret = bad;
+                }
+            }
+            out
+        }
+    }
+}
+
+/// One table: the shape's graph; property `p0`, method `m0`, signal `a`, enum `E` (variant `V0`) each declared per class
+/// according to a status vector (resolvable / unresolvable / absent; enums: unscoped / scoped / absent) derived from `sv`.
+fn member_table(rng: &mut Rng, shape: &[Vec<(&'static str, &'static str)>], sv: &[St]) -> (TableSpec, Vec<String>) {
+    let n = shape.len();
+    let mut t = TableSpec { classes: vec![], others: vec!["E0".to_owned(), "int".to_owned()] };
+    let prop_st = |i: usize| sv[i];
+    let meth_st = |i: usize| rot(sv[(i + 1) % n]);
+    let sig_st = |i: usize| rot(rot(sv[(i + 2) % n]));
+    let enum_st = |i: usize| sv[(i + 1) % n];
+    // graph and enums first: whether a type name resolves depends on which enums a class sees
+    for (i, supers) in shape.iter().enumerate() {
+        let mut c = ClassSpec { name: format!("C{i}"), supers: supers.iter().map(|(s, a)| ((*s).to_owned(), *a)).collect(), ..Default::default() };
+        match enum_st(i) {
+            St::R => c.enums.push(EnumSpec { name: "E".into(), scoped: false, variants: vec!["V0".into(), format!("V{}", 1 + i % 3)] }),
+            St::U => c.enums.push(EnumSpec { name: "E".into(), scoped: true, variants: vec!["V0".into()] }),
+            St::A => {}
+        }
+        if rng.chance(1, 3) {
+            c.enums.push(EnumSpec { name: (*rng.pick(&["F", "G"])).into(), scoped: rng.chance(1, 4), variants: vec![(*rng.pick(&["V0", "V1", "V2"])).into()] });
+        }
+        t.classes.push(c);
+    }
+    let snapshot = t.classes.clone();
+    for i in 0..n {
+        match prop_st(i) {
+            St::R => t.classes[i].props.push(PropSpec { name: "p0".into(), ty: Some(resolvable_type(rng, &snapshot, i)) }),
+            St::U => {
+                // sometimes an earlier, resolvable declaration of the same name in the same class: the later one counts
+                if rng.chance(1, 5) {
+                    t.classes[i].props.push(PropSpec { name: "p0".into(), ty: Some("int".into()) });
+                }
+                t.classes[i].props.push(PropSpec { name: "p0".into(), ty: Some(unresolvable_type(rng, &snapshot, i)) })
+            }
+            St::A => {}
+        }
+        if rng.chance(1, 2) {
+            let ty = if rng.chance(1, 2) { resolvable_type(rng, &snapshot, i) } else { unresolvable_type(rng, &snapshot, i) };
+            t.classes[i].props.push(PropSpec { name: (*rng.pick(&["p1", "p2"])).into(), ty: Some(ty) });
+        }
+        let mut ms = typed_methods(rng, &snapshot, i, "m0", meth_st(i), false);
+        ms.extend(typed_methods(rng, &snapshot, i, "a", sig_st(i), true));
+        if rng.chance(1, 3) {
+            let st = *rng.pick(&[St::R, St::U]);
+            ms.extend(typed_methods(rng, &snapshot, i, "m1", st, false));
+        }
+        for (sec, m) in ms {
+            match sec {
+                0 => t.classes[i].signals.push(m),
+                1 => t.classes[i].slots.push(m),
+                _ => t.classes[i].methods.push(m),
+            }
+        }
+    }
+    let mut labels = vec!["members".to_owned()];
+    // the situations the property singles out
+    let anc = |i: usize, j: usize| i != j && pipeline_derives(&t.classes, i, j);
+    for (what, st) in [("prop", &prop_st as &dyn Fn(usize) -> St), ("method", &meth_st), ("signal", &sig_st)] {
+        if (0..n).any(|i| st(i) == St::U && (0..n).any(|j| anc(i, j) && st(j) == St::R)) {
+            labels.push(format!("{what}:own-unresolvable-over-resolvable-ancestor"));
+        }
+        if (0..n).any(|i| st(i) == St::A && (0..n).any(|j| anc(i, j) && st(j) == St::U)) {
+            labels.push(format!("{what}:inherited-unresolvable"));
+        }
+        if (0..n).any(|i| st(i) == St::R && (0..n).any(|j| anc(i, j) && st(j) == St::U)) {
+            labels.push(format!("{what}:own-resolvable-over-unresolvable-ancestor"));
+        }
+    }
+    (t, labels)
+}
+
+/// class `i` derives (public, transitively) from class `j` — plain graph search for the labels
+fn pipeline_derives(classes: &[ClassSpec], i: usize, j: usize) -> bool {
+    let mut seen = vec![];
+    let mut stack = vec![classes[i].name.clone()];
+    while let Some(n) = stack.pop() {
+        if seen.contains(&n) {
+            continue;
+        }
+        seen.push(n.clone());
+        if n == classes[j].name && !(seen.len() == 1) {
+            return true;
+        }
+        if let Some(c) = classes.iter().rev().find(|c| c.name == n) {
+            stack.extend(c.supers.iter().filter(|(_, a)| *a == "pub").map(|(s, _)| s.clone()));
+        }
+    }
+    false
+}
+
+fn member_queries() -> Vec<Sexp> {
+    all_queries().into_iter().skip(3).collect()
+}
+
+/// the three cases of a table with member types: exact answers vs the model, member answers judged by the specification
+/// (kind=pred), coarse answers vs the specification (skipped by the driver when the coarse answer is not determined)
+fn push_typed_cases(cases: &mut Vec<Case>, t: &TableSpec, labels: Vec<String>) {
+    let (cs, os) = t.to_sexp();
+    let args = vec![cs.clone(), os.clone(), node("queries", all_queries())];
+    cases.push(Case { kind: "model", labels: labels.clone(), request: node("cg", args.clone()) });
+    cases.push(Case { kind: "spec", labels: labels.clone(), request: node("spec-cg", args) });
+    cases.push(Case { kind: "pred", labels, request: node("spec-cg", vec![cs, os, node("queries", member_queries()), node("judge", vec![])]) });
 }
 
 fn all_queries() -> Vec<Sexp> {
@@ -695,6 +1089,7 @@ impl Stream for C17 {
                 nonclass: k % 8 == 6 || rng.chance(1, 8),
                 dups: rng.chance(1, 10),
                 dense: rng.chance(1, 3),
+                typed: false,
             };
             let t = gen_table(&mut rng, &sh);
             let labels = describe(&t);
@@ -728,8 +1123,8 @@ impl Stream for C17 {
                 t.classes.push(ClassSpec {
                     name: format!("C{i}"),
                     supers: sup.iter().map(|n| (n.clone(), "pub")).collect(),
-                    props: vec![format!("p{i}")],
-                    slots: vec![MethodSpec { name: format!("m{i}"), access: "pub", nargs: i % 3 }],
+                    props: vec![PropSpec { name: format!("p{i}"), ty: None }],
+                    slots: vec![MethodSpec { name: format!("m{i}"), access: "pub", nargs: i % 3, types: None }],
                     enums: vec![EnumSpec { name: "E".to_owned(), scoped: false, variants: vec![format!("V{i}")] }],
                     ..Default::default()
                 });
@@ -741,6 +1136,44 @@ impl Stream for C17 {
             cases.push(Case { kind: "model", labels: labels.clone(), request: node("cg", args.clone()) });
             cases.push(Case { kind: "spec", labels, request: node("spec-cg", args) });
         }
+        // the same member names declared at several levels, every combination of {resolvable, unresolvable, absent} per
+        // class, on chains, diamonds, several bases, cycles, dangling and private supers (exhaustive per shape)
+        let mut k = 0u64;
+        for (label, shape) in member_shapes(thorough) {
+            for sv in status_vectors(shape.len()) {
+                for round in 0..if thorough { 4 } else { 1 } {
+                    k += 1;
+                    let mut r2 = Rng::fork(seed, "c17-members", k);
+                    let (t, mut labels) = member_table(&mut r2, &shape, &sv);
+                    labels.push(format!("shape:{label}"));
+                    if round == 0 {
+                        labels.push("members:exhaustive-statuses".into());
+                    }
+                    labels.extend(describe(&t).into_iter().skip(1));
+                    push_typed_cases(&mut cases, &t, labels);
+                }
+            }
+        }
+        // random tables with member types
+        for k in 0..if thorough { 6_000 } else { 400 } {
+            let mut r2 = Rng::fork(seed, "c17-typed", k as u64);
+            let sh = Shape {
+                n: 1 + r2.below(9),
+                cycles: k % 5 == 1,
+                dangling: k % 4 == 2,
+                private: r2.chance(1, 4),
+                nonclass: true,
+                dups: r2.chance(1, 12),
+                dense: r2.chance(1, 3),
+                typed: true,
+            };
+            let t = gen_table(&mut r2, &sh);
+            let mut labels = describe(&t);
+            labels.push("typed-random".into());
+            push_typed_cases(&mut cases, &t, labels);
+        }
+        // the same through the whole pipeline: documents that bind / read / call / connect such members
+        cases.extend(pipeline::generate(seed, thorough));
         cases
     }
 
@@ -748,12 +1181,22 @@ impl Stream for C17 {
         let Some((tag, args)) = req.as_node() else {
             return node("bad-request", vec![]);
         };
+        match tag {
+            "c17-doc" => {
+                let qt = self.qt.get_or_init(crate::env::load_qt_classes);
+                return pipeline::answer_doc(qt, args);
+            }
+            "c17-cli" => return pipeline::answer_cli(args),
+            _ => {}
+        }
         let spec = match tag {
             "cg" => false,
+            // kind=pred: the EXACT answers, judged by the Lean specification
+            "spec-cg" if args.len() == 4 && args[3].as_node().map(|(t, a)| t == "judge" && a.is_empty()).unwrap_or(false) => false,
             "spec-cg" | "f10-cg" => true,
             _ => return node("bad-request", vec![]),
         };
-        if args.len() != 3 {
+        if args.len() != 3 && !(tag == "spec-cg" && args.len() == 4 && !spec) {
             return node("bad-request", vec![]);
         }
         let Some(tbl) = TableSpec::parse(&args[0], &args[1]) else {
